@@ -233,7 +233,10 @@ def _construct(ex, ci, args, kwargs, st, node):
             elif isinstance(v, PyList) and len(v.items) == 1 and isinstance(v.items[0], PyDict) and not v.items[0].keys:
                 st.assume(sym(it.z) == V.RUNIT)
             elif isinstance(v, PyDict) and not v.keys:
-                st.assume(V.rlen(sym(it.z)) == 0)
+                # a Python {} of rows is the empty row sequence over any column set; in a function whose parameter ``columns`` names
+                # the column set asked for (get_doomed_payload) it stands for that one
+                cs = st.env.get("columns")
+                st.assume(sym(it.z) == V.REMPTY(cs.z) if isinstance(cs, SV) and cs.td == TTagSet else V.rlen(sym(it.z)) == 0)
             elif isinstance(v, PyDict) and len(v.keys) == 1 and isinstance(v.values[0], PyDict) and not v.values[0].keys:
                 st.assume(sym(it.z) == V.RUNIT)
             else:
